@@ -41,6 +41,38 @@ def const_fold(term):
     return None
 
 
+def fold_consts(term):
+    """constant folding over the finite string domain of the parsers: comparisons of constants, conditional expressions
+    with a decided test, concatenation of constants, `'' .replace(...)`, `x or y` / `x and y` with a constant left side"""
+    if not isinstance(term, tuple) or not term:
+        return term
+    if term[0] == 'const':
+        return term
+    t_ = tuple(fold_consts(x) if isinstance(x, tuple) else x for x in term)
+    if t_[0] == 'cmp' and t_[2][0] == 'const' and t_[3][0] == 'const':
+        a, b = t_[2][1], t_[3][1]
+        try:
+            v = {'==': lambda: a == b, '!=': lambda: a != b, 'in': lambda: a in b, 'notin': lambda: a not in b}.get(t_[1])
+            if v is not None:
+                return ('const', v())
+        except TypeError:
+            pass
+    if t_[0] == 'not' and t_[1][0] == 'const':
+        return ('const', not t_[1][1])
+    if t_[0] == 'ifexp' and t_[1][0] == 'const':
+        return t_[2] if t_[1][1] else t_[3]
+    if t_[0] == 'concat' and all(x[0] == 'const' and isinstance(x[1], str) for x in t_[1:]):
+        return ('const', ''.join(x[1] for x in t_[1:]))
+    if t_[0] == 'call' and t_[1][0] == 'attr' and t_[1][2] == 'replace' and t_[1][1] == ('const', ''):
+        return ('const', '')
+    if t_[0] in ('or', 'and') and len(t_) >= 3 and t_[1][0] == 'const':
+        pick_rest = bool(t_[1][1]) == (t_[0] == 'and')
+        if not pick_rest:
+            return t_[1]
+        return t_[2] if len(t_) == 3 else fold_consts((t_[0],) + t_[2:])
+    return t_
+
+
 def feasible_paths(stmts, unroll=(0, 1), on_stmt=None):
     """paths through a statement list with forward substitution; paths whose literals compare two
     different constants are infeasible and dropped.  Yields (literals, builder, effects, path)."""
